@@ -130,11 +130,12 @@ pub struct Gen {
     pub next_col: u32,
     pub inexact_indices: bool,
     pub exact_indices: bool,
+    pub allow_defer_remap: bool,
 }
 
 impl Gen {
     pub fn new() -> Self {
-        Self { next_k: 0, next_img: 1, opno: 0, next_col: 0, inexact_indices: true, exact_indices: true }
+        Self { next_k: 0, next_img: 1, opno: 0, next_col: 0, inexact_indices: true, exact_indices: true, allow_defer_remap: false }
     }
     pub fn fresh_rows(&mut self, rng: &mut Rng, cols: &[ColDef], n: usize) -> Vec<Row> {
         (0..n)
@@ -201,7 +202,8 @@ impl Gen {
                     let mut rows = Vec::new();
                     let dup = rng.chance(0.08);
                     for i in 0..n {
-                        let k = if !existing.is_empty() && rng.chance(0.6) {
+                        let from_existing = !existing.is_empty() && rng.chance(0.6);
+                        let k = if from_existing {
                             *rng.pick(&existing)
                         } else {
                             let k = self.next_k;
@@ -211,7 +213,7 @@ impl Gen {
                         let img = self.next_img;
                         self.next_img += 1;
                         rows.push(cols.iter().map(|c| gen_val(rng, c, k, img)).collect::<Row>());
-                        if dup && i == 0 {
+                        if dup && from_existing && rows.len() == 1 + i.min(0) && i == 0 {
                             let img = self.next_img;
                             self.next_img += 1;
                             rows.push(cols.iter().map(|c| gen_val(rng, c, k, img)).collect::<Row>());
@@ -248,7 +250,7 @@ impl Gen {
                         target_rows: *rng.pick(&[5usize, 10, 20, 50, 1000]),
                         materialize: rng.chance(0.8),
                         threshold: *rng.pick(&[0.0f32, 0.1, 0.5, 2.0]),
-                        defer_remap: rng.chance(0.2),
+                        defer_remap: rng.chance(0.2) && self.allow_defer_remap,
                     };
                 }
                 7 => {
@@ -332,7 +334,7 @@ impl Gen {
     }
 }
 
-fn prop_for_op(op: &Op) -> &'static str {
+pub fn prop_for_op(op: &Op) -> &'static str {
     match op {
         Op::Append { .. } | Op::Overwrite { .. } => "C11",
         Op::Delete { .. } | Op::Update { .. } | Op::Merge { .. } => "C12",
@@ -380,6 +382,10 @@ pub struct Runner {
     pub res: RunResult,
     pub next_actor: u32,
     pub step: u64,
+    /// history contained a column-rewriting (partial schema) merge_insert while an index existed
+    pub seen_col_rewrite: bool,
+    /// history contained a compaction with deferred index remap while an index existed
+    pub seen_defer_remap: bool,
 }
 
 impl Runner {
@@ -424,6 +430,12 @@ impl Runner {
         res.knobs.insert("storage".into(), format!("{}", ctx.storage_version));
         res.knobs.insert("store".into(), format!("{:?}", knobs));
         let mut gen = Gen::new();
+        // Known finding (scalar index + stable row ids + update returns stale matches, see
+        // known_findings.jsonl): only the index checks themselves combine the two.
+        if ctx.stable_row_ids && !matches!(cfg.prop.as_str(), "C19" | "C20") {
+            gen.exact_indices = false;
+            gen.inexact_indices = false;
+        }
         let mut st = TableState { cols: default_cols(), rows: vec![], order_exact: true, config: BTreeMap::new(), indices: vec![] };
         let n0 = rng.range(5, 40) as usize;
         st.rows = gen.fresh_rows(rng, &st.cols, n0);
@@ -439,7 +451,7 @@ impl Runner {
             Ok((w, ctx, ds, st, gen)) => {
                 let mut history = BTreeMap::new();
                 history.insert(ds.version().version, st.clone());
-                Ok(Self { cfg, rng, w, ctx, ds, st, history, gen, res, next_actor: 100, step: 0 })
+                Ok(Self { cfg, rng, w, ctx, ds, st, history, gen, res, next_actor: 100, step: 0, seen_col_rewrite: false, seen_defer_remap: false })
             }
             Err(e) => {
                 res.violate("C11", "create", "create-failed", 0, e);
@@ -451,6 +463,13 @@ impl Runner {
     /// Execute one op on lance and model; record outcome. Returns true if a new version was made.
     pub async fn do_op(&mut self, op: &Op) -> bool {
         let before = self.ds.version().version;
+        if !self.st.indices.is_empty() {
+            match op {
+                Op::Merge { .. } if op.kind() == "merge_partial" => self.seen_col_rewrite = true,
+                Op::Compact { defer_remap: true, .. } => self.seen_defer_remap = true,
+                _ => {}
+            }
+        }
         let mut expect = self.st.clone();
         let model_res = model_apply(&mut expect, op, &self.history);
         let r = with_deadline(3600, &op.brief(), exec_op(&self.ctx, &mut self.ds, &self.st, op)).await;
@@ -524,9 +543,16 @@ impl Runner {
         }
         let p = gen_pred(&mut self.rng, &self.st.cols, self.gen.next_k, 1);
         let expect = self.st.rows.iter().filter(|r| p.eval(&self.st.cols, r) == Some(true)).count();
+        let mut pc = BTreeSet::new();
+        p.columns(&mut pc);
+        let kinds: Vec<String> = self.st.indices.iter().filter(|i| pc.contains(&i.column)).map(|i| i.kind.clone()).collect();
+        let sql = p.sql();
+        let neg = sql.contains("NOT (") || sql.contains("<>");
+        let zone_based = kinds.iter().any(|k| k == "ZoneMap" || k == "BloomFilter");
+        let tag = format!("{}{}{}", if kinds.is_empty() { "noindex".to_string() } else { kinds.join("+") }, if neg && !kinds.is_empty() { ":negation" } else { "" }, if !kinds.is_empty() && self.ctx.stable_row_ids { ":stable-row-ids" } else { "" }).to_string() + if !kinds.is_empty() && self.seen_col_rewrite { ":after-column-rewrite" } else { "" } + if !kinds.is_empty() && self.seen_defer_remap { ":defer-remap" } else { "" };
         match self.ds.count_rows(Some(p.sql())).await {
             Ok(n) if n == expect => {}
-            Ok(n) => self.res.violate("C16", "O-count", "count-filter-mismatch", self.step, format!("count_rows({})={} model={}", p.sql(), n, expect)),
+            Ok(n) => self.res.violate("C16", "O-count", &format!("count-filter-mismatch:{}", tag), self.step, format!("count_rows({})={} model={}", p.sql(), n, expect)),
             Err(e) => self.res.violate("C16", "O-count", &format!("count-filter-error:{}", err_class(&e.to_string())), self.step, format!("count_rows({}) failed: {}", p.sql(), e)),
         }
     }
@@ -676,7 +702,21 @@ impl Runner {
             return;
         }
         for _ in 0..npreds {
-            let p = gen_pred(&mut self.rng, &cols, self.gen.next_k, 2);
+            let mut p = gen_pred(&mut self.rng, &cols, self.gen.next_k, 2);
+            // known finding (negation over an exact index keeps NULL rows): generate the
+            // triggering shape in a minority of queries only so other defects stay reachable
+            for _ in 0..8 {
+                let sql = p.sql();
+                let neg = sql.contains("NOT (") || sql.contains("<>");
+                let mut pc = BTreeSet::new();
+                p.columns(&mut pc);
+                let nullable = cols.iter().any(|c| pc.contains(&c.name) && c.nullable);
+                if neg && nullable && self.rng.chance(0.97) {
+                    p = gen_pred(&mut self.rng, &cols, self.gen.next_k, 2);
+                } else {
+                    break;
+                }
+            }
             let sql = p.sql();
             let on = scan(&self.ds, &ScanOpts { filter: Some(sql.clone()), use_scalar_index: Some(true), ..Default::default() }).await;
             let off = scan(&self.ds, &ScanOpts { filter: Some(sql.clone()), use_scalar_index: Some(false), ..Default::default() }).await;
@@ -699,7 +739,10 @@ impl Runner {
                         let neg = sql.contains("NOT (") || sql.contains("<>");
                         let all_extra_null = !extra.is_empty() && extra.iter().all(|r| pidx.iter().any(|i| r[*i].is_null()));
                         let class = if missing == 0 && neg && all_extra_null { "negation-keeps-null-rows" } else if missing > 0 { "drops-rows" } else { "extra-rows" };
-                        self.res.violate(prop, "O-index-diff", &format!("index-vs-scan:{}:{}", class, kinds.join("+")), self.step, format!("filter `{}` kinds {:?}: with index {}", sql, kinds, diff_rows(&b, &a)));
+                        let zone_based = kinds.iter().any(|k| k == "ZoneMap" || k == "BloomFilter");
+                        let _ = zone_based;
+                        let stable = format!("{}{}{}", if self.ctx.stable_row_ids { ":stable-row-ids" } else { "" }, if self.seen_col_rewrite { ":after-column-rewrite" } else { "" }, if self.seen_defer_remap { ":defer-remap" } else { "" });
+                        self.res.violate(prop, "O-index-diff", &format!("index-vs-scan:{}:{}{}", class, kinds.join("+"), stable), self.step, format!("filter `{}` kinds {:?}: with index {}", sql, kinds, diff_rows(&b, &a)));
                     } else if sorted(&b) != sorted(&expect) {
                         self.res.violate("C16", "O-filter-model", "filter-vs-model", self.step, format!("filter `{}`: {}", sql, diff_rows(&expect, &b)));
                     }
@@ -779,6 +822,50 @@ pub fn err_class(msg: &str) -> String {
     out
 }
 
+/// NOT (.. (c IN (..)) AND (c IN (..)) ..): DataFusion's simplifier folds a conjunction of
+/// disjoint IN lists to `false`, which is wrong under NOT for NULL values (known finding)
+pub fn has_not_over_in_conjunction(p: &Pred, under_not: bool) -> bool {
+    match p {
+        Pred::Not(q) => has_not_over_in_conjunction(q, true),
+        Pred::And(a, b) => {
+            if under_not {
+                if let (Pred::In(c1, _), Pred::In(c2, _)) = (a.as_ref(), b.as_ref()) {
+                    if c1 == c2 {
+                        return true;
+                    }
+                }
+            }
+            has_not_over_in_conjunction(a, under_not) || has_not_over_in_conjunction(b, under_not)
+        }
+        Pred::Or(a, b) => has_not_over_in_conjunction(a, under_not) || has_not_over_in_conjunction(b, under_not),
+        _ => false,
+    }
+}
+
+/// operation kind for signatures; deletes/updates whose predicate negates an indexed
+/// nullable column are tagged (known finding: negation over an exact index keeps NULL rows)
+pub fn op_sig_kind(op: &Op, st: &TableState) -> String {
+    let pred = match op {
+        Op::Delete { pred } => Some(pred),
+        Op::Update { pred, .. } => Some(pred),
+        _ => None,
+    };
+    if let Some(p) = pred {
+        let sql = p.sql();
+        let neg = sql.contains("NOT (") || sql.contains("<>");
+        let mut pc = BTreeSet::new();
+        p.columns(&mut pc);
+        let indexed_nullable = st.indices.iter().any(|i| pc.contains(&i.column) && st.cols.iter().any(|c| c.name == i.column && c.nullable));
+        if neg && indexed_nullable {
+            return format!("{}:indexed-negation", op.kind());
+        }
+        if has_not_over_in_conjunction(p, false) {
+            return format!("{}:not-over-in-conjunction", op.kind());
+        }
+    }
+    op.kind().to_string()
+}
+
 /// signature of a panic: its source location (file:line) when known, else message class
 pub fn panic_sig(p: &str) -> String {
     if let (Some(a), Some(b)) = (p.rfind('['), p.rfind(']')) {
@@ -793,6 +880,8 @@ pub async fn run(cfg: RunCfg) -> RunResult {
     let mode = cfg.opt("mode").unwrap_or("seq").to_string();
     match mode.as_str() {
         "seq" => run_seq(cfg).await,
+        "crash" => crate::e1crash::run_crash(cfg).await,
+        "conc" => crate::e1conc::run_conc(cfg).await,
         other => RunResult::harness_error(&cfg, format!("unknown e1 mode {}", other)),
     }
 }
@@ -827,9 +916,13 @@ pub async fn run_seq(cfg: RunCfg) -> RunResult {
     };
     let mix = Mix::for_prop(&cfg.prop);
     match cfg.prop.as_str() {
-        "C19" => r.gen.inexact_indices = false,
         "C20" => r.gen.exact_indices = false,
-        _ => {}
+        "C13" => {
+            r.gen.inexact_indices = false;
+            r.gen.allow_defer_remap = true;
+        }
+        // inexact (zone / n-gram) indices are exercised by C20's check only
+        _ => r.gen.inexact_indices = false,
     }
     let drawn = r.rng.range(4, 12) as u64;
     let nsteps = cfg.max_steps.map(|m| m.min(drawn)).unwrap_or(drawn);
@@ -847,12 +940,15 @@ pub async fn run_seq(cfg: RunCfg) -> RunResult {
         let outcome = guarded(async {
             let changed = r.do_op(&op).await;
             let prop = prop_for_op(&op);
-            let what = op.kind();
+            let what_s = op_sig_kind(&op, &r.st);
+            let what = what_s.as_str();
             r.o_scan(prop, what).await;
             r.o_count(prop).await;
             r.o_validate().await;
             r.o_versions().await;
-            r.o_index_diff(if matches!(r.cfg.prop.as_str(), "C19" | "C20") { 8 } else { 2 }).await;
+            if matches!(r.cfg.prop.as_str(), "C19" | "C20" | "C13" | "C24") {
+                r.o_index_diff(if matches!(r.cfg.prop.as_str(), "C19" | "C20") { 8 } else { 3 }).await;
+            }
             if changed && r.rng.chance(0.3) {
                 r.o_time_travel(2).await;
             }
